@@ -18,7 +18,7 @@ pub fn reference(drv: &mut Driver, ev: &mut Ev, c: &EncCase) -> Ref {
 }
 pub fn compare(ev: &mut Ev, case: &EncCase, out: &EncOut, r: &Ref) {
     ev.count("chunk-diff.histories");
-    let key = |k: &str| format!("{}:{}:{}", case.enc.output_encoding().name(), if case.src16 { "utf16" } else { "utf8" }, k);
+    let key = |k: &str| format!("{}:{}:{}", crate::c01::ofam(case.enc), if case.src16 { "utf16" } else { "utf8" }, k);
     if r.out.fail_of(&[FailKind::Panic, FailKind::Stuck]).is_some() { ev.count("chunk-diff.reference-run-failed"); return; }
     if let Some(f) = out.fail_of(&[FailKind::Panic, FailKind::Stuck]) {
         ev.violation("chunk-diff", &key(&format!("{:?}", f.0)), format!("chunked history did not complete ({:?}: {}) although the single call does | {} | calls: {}", f.0, f.1, case.describe(), fmt_calls(&out.calls)));
@@ -64,7 +64,7 @@ pub fn run(ctx: &Ctx, ev: &mut Ev) {
             if tr { println!("TRACE {} | calls: {} | items [{}] | single call [{}]", case.describe(), fmt_calls(&out.calls), fmt_eitems(&out.items), fmt_eitems(&rf.as_ref().unwrap().out.items)); }
             compare(ev, case, &out, rf.as_ref().unwrap());
             if nontrivial(case, &out) { ev.nontrivial_enum(); }
-            ev.state(H::new().s(case.enc.output_encoding().name()).u(case.src16 as u64).u(case.repl as u64).u(out.calls.len().min(6) as u64).get(), || format!("{} src16={} repl={} calls={}", case.enc.output_encoding().name(), case.src16, case.repl, out.calls.len().min(6)));
+            ev.state(H::new().s(crate::c01::ofam(case.enc)).u(case.src16 as u64).u(case.repl as u64).u(out.calls.len().min(6) as u64).get(), || format!("{} src16={} repl={} calls={}", crate::c01::ofam(case.enc), case.src16, case.repl, out.calls.len().min(6)));
             ev.sample(|| format!("{} -> calls {}", case.describe(), fmt_calls(&out.calls)));
         });
         // all 40 encodings on length <= 2 texts
